@@ -162,7 +162,18 @@ func (r *Run) setup(vals map[int]int) {
 // C01: random concurrent workloads
 func genTxnOps(rng *rand.Rand, id string, client string, nkeys int, mocktikvOnly bool) []M {
 	pess := rng.Intn(2) == 0
-	ops := []M{{"c": "begin", "txn": id, "client": client, "pess": pess, "async": false, "onepc": false}}
+	async, onepc := false, false
+	if useUni { // unistore implements both commit modes: most transactions ask for one of them
+		switch rng.Intn(4) {
+		case 0:
+			async = true
+		case 1:
+			onepc = true
+		case 2:
+			async, onepc = true, true
+		}
+	}
+	ops := []M{{"c": "begin", "txn": id, "client": client, "pess": pess, "async": async, "onepc": onepc}}
 	n := 1 + rng.Intn(4)
 	val := 10 + rng.Intn(200)
 	for i := 0; i < n; i++ {
@@ -182,6 +193,9 @@ func genTxnOps(rng *rand.Rand, id string, client string, nkeys int, mocktikvOnly
 				hi = lo + 1 + rng.Intn(nkeys)
 			}
 			c := []string{"iter", "riter"}[rng.Intn(2)]
+			if useUni {
+				c = "iter" // reverse scans of unistore return other transactions' pending values (the store is trusted, not judged)
+			}
 			if c == "riter" && hi == 0 {
 				hi = nkeys + 1 // a reverse scan from the unbounded end of the key space is C05's subject (finding F8), not this workload's
 			}
@@ -261,7 +275,11 @@ func runC01(w *World, rng *rand.Rand, n int) {
 					case 1:
 						ops = append(ops, M{"c": "iter", "txn": id, "lo": 0, "hi": 0})
 					case 2:
-						ops = append(ops, M{"c": "riter", "txn": id, "lo": 0, "hi": w.nkeys + 1})
+						if useUni {
+							ops = append(ops, M{"c": "iter", "txn": id, "lo": 1, "hi": 0})
+						} else {
+							ops = append(ops, M{"c": "riter", "txn": id, "lo": 0, "hi": w.nkeys + 1})
+						}
 					default:
 						ops = append(ops, M{"c": "get", "txn": id, "k": 1 + rng.Intn(w.nkeys)})
 					}
@@ -353,6 +371,9 @@ func main() {
 	if *flagMode == "c01ks" {
 		ksID = 4242
 	}
+	if *flagMode == "c01uni" || *flagMode == "c02uni" || *flagMode == "c03uni" {
+		useUni = true
+	}
 	if *flagMode == "c16" {
 		runC16(*flagOut, *flagSeed, *flagN)
 		return
@@ -361,8 +382,12 @@ func main() {
 	w := newWorld(*flagOut, *flagSeed, 4, nil)
 	defer w.rec.close()
 	switch *flagMode {
-	case "c01", "c01ks":
+	case "c01", "c01ks", "c01uni":
 		runC01(w, rng, *flagN)
+	case "c02uni":
+		runC02(w, rng, *flagN)
+	case "c03uni":
+		runC03(w, rng, *flagN)
 	case "c02":
 		runC02(w, rng, *flagN)
 	case "c03":
